@@ -38,7 +38,7 @@ class SymH:
     def _reg(self, name, fn):
         self.st.symbols[name] = fn
 
-    def real(self, name):
+    def real(self, name, inf=False):
         v = self.st.fresh(name, 'real')
         self._reg(name, lambda m, t=v.t: _num(m, t))
         return v
@@ -64,7 +64,7 @@ class SymH:
         self._reg(name, lambda m, kk=k: kk)
         return options[k]
 
-    def list_real(self, name, nd=False, ek='real', minlen=0):
+    def list_real(self, name, nd=False, ek='real', minlen=0, inf=False):
         arr = z3.Array(name + '_a', z3.IntSort(), z3.RealSort() if ek == 'real' else z3.IntSort())
         ln = z3.Int(name + '_n')
         self.st.assume(ln >= minlen)
@@ -405,6 +405,14 @@ class _Helpers:
         return math.isclose(a, b, rel_tol=_Helpers.tol_rel, abs_tol=_Helpers.tol_abs)
 
     @staticmethod
+    def gt(a, b):
+        return a > b or _Helpers.eq(a, b)
+
+    @staticmethod
+    def ge(a, b):
+        return a >= b or _Helpers.eq(a, b)
+
+    @staticmethod
     def Pow(h, n):
         return float(h) ** int(n)
 
@@ -495,19 +503,19 @@ class NativeH:
             return float('inf')
         return float(v)
 
-    def _rnd_real(self):
+    def _rnd_real(self, inf=False):
         r = self.rng or _random
         c = r.random()
         if c < 0.15:
             return float(r.choice([0, 1, -1, 2, 0.5, -0.5, 3, 10]))
-        if c < 0.2:
+        if c < 0.2 and inf:
             return float('inf')
         if c < 0.6:
             return r.uniform(-3, 3)
         return r.uniform(-100, 100) * r.choice([1e-3, 1, 1, 10])
 
-    def real(self, name):
-        return self._flt(self._val(name, self._rnd_real))
+    def real(self, name, inf=False):
+        return self._flt(self._val(name, lambda: self._rnd_real(inf)))
 
     def int(self, name):
         r = self.rng or _random
@@ -525,14 +533,14 @@ class NativeH:
         k = int(self._val(name, lambda: r.randrange(len(options))))
         return options[k]
 
-    def list_real(self, name, nd=False, ek='real', minlen=0):
+    def list_real(self, name, nd=False, ek='real', minlen=0, inf=False):
         r = self.rng or _random
 
         def gen():
             n = r.choice([0, 1, 1, 2, 2, 3, 4, 5, 8]) if minlen == 0 else r.choice([1, 1, 2, 3, 4, 6]) + minlen - 1
             if ek == 'int':
                 return [r.randrange(-3, 6) for _ in range(n)]
-            return [self._rnd_real() for _ in range(n)]
+            return [self._rnd_real(inf) for _ in range(n)]
         v = self._val(name, gen)
         v = [self._flt(x) if ek == 'real' else int(x) for x in v]
         if nd:
@@ -807,6 +815,13 @@ def _flat(a):
 def run_native(harness_fn, values=None, rng=None, tables=None, z3model=None, symh=None):
     """returns (status, failures, record): status in held / failed / discarded / error"""
     h = NativeH(values, rng, tables, z3model, symh)
+    import warnings
+    try:
+        import numpy
+        numpy.seterr(all='ignore')
+    except ImportError:
+        pass
+    warnings.simplefilter('ignore')
     try:
         harness_fn(h)
     except Discard:
